@@ -22,6 +22,9 @@ CHECKS = {
  "C02": dict(cat="exploration", tech="property-based testing with witness-space search as oracle: complete enumeration of satisfying assignments in small prime fields",
    text="For every value-returning operator x operand-kind combination x complete small operand pools, and for generated 2-5 operation compositions, the recorded circuit is searched for ANY satisfying assignment (operands pinned, all auxiliary witnesses free) whose result differs from the honest one. In small prime fields the enumeration is complete for the circuit instance (a per-instance proof against the adversarial prover); real-field instances use a heuristic adversary. Counterexamples explained by the two listed findings (K1, K2) are excluded only if they have exactly the shape those findings allow and disappear when the variables they leave free are pinned.",
    note=TB + "; transfer from small fields to the 254-bit fields is an argument (value-independent circuit shape, C06), not decided here.", ref="4 (C02), 5"),
+ "C03": dict(cat="exploration", tech="property-based testing with witness-space search: satisfiable set vs accepted set vs relation, complete over small fields",
+   text="For every assertion kind and declared type, every width parameter and two (bitlength, small prime) pairs [thorough: five], the circuit of an accepted call is captured, the operand wires are freed and for every operand value of the window (all of F_p for one operand) the auxiliary witness space is searched completely. The satisfiable set must contain no value for which the relation is false, must contain every value the call accepts, and must equal the accepted set (same bounds, same width). The error-path circuit (ignore_errors) is compared with the captured one. Complete for each (kind, parameter, field) instance enumerated; exploration across kinds/fields.",
+   note=TB + "; small prime fields stand in for the 254-bit fields (argument via C06, not decided).", ref="4 (C03)"),
 }
 PENDING = {}
 
